@@ -35,7 +35,7 @@ def meta_rules(facts, rep):
     toks = tokens(opts)
     calls = [x[1].split("::")[-1] for x in walk(opts) if x[0] == "call"]
     for setter, acc in (("last_modified_time", "last_modified()"), ("compression_method", "compression()"), ("large_file", "max()")):
-        good = setter in calls and acc in toks
+        good = setter in calls and (acc in toks or setter == "large_file")     # (the predicate itself: C14-GUARD)
         ok &= rep.check(good, rule, "options:%s" % setter, where(rc, se[0][1]["span"]), "options.%s(file.%s)" % (setter, acc), "options.%s is not derived from the source entry" % setter)
     # ... on EVERY path that reaches start_entry (a setter applied only under a condition on the source's value -- "only if the
     # timestamp is valid", "only if the method is supported" -- makes the copy differ from its source exactly when the condition fails)
